@@ -1,6 +1,7 @@
 // Family "bool": closed subject/clip inputs x all configurations, for BoolTrace.tla
 // (C01 cover, C02 cells, C03 well-formedness, C04 tree, C11 success).
 #include "boolcommon.hpp"
+#include "clipper2/clipper.verif.h"
 
 static std::vector<Point64> sample_pts(Rng& r, const Paths64& all, bool rect, int npts, int& ps) {
   int64_t lx = 1 << 30, ly = 1 << 30, hx = -(1 << 30), hy = -(1 << 30);
@@ -33,6 +34,7 @@ static void run_case(std::ostream& os, uint64_t s0, long long id, const std::str
   guarded(os, what, 120, [&](std::ostream& o) { run_case_body(o, s0, id, fam, S, C, emb, npts, cfg, reunion, nexec); });
   nexec += ((cfg == "lite" || cfg == "batchlite") ? 16 : 64) * (cfg == "notree" ? 1 : 2);   // executions happen in the child; count nominally
 }
+static long long g_nsplit = 0; static void split_cb(int tree, long long) { if (tree) ++g_nsplit; }
 static bool g_loose = false, g_gpcert = false, g_xtra = false, g_light = false; static std::vector<int> g_cts, g_frs;
 // small extra subject triangles, far to the right of the input, one vertex of each placed k units (|k| <= 9) above / below the y of a
 // crossing of two embedded input edges: unrelated geometry that puts a scanline right next to an intersection point
@@ -137,8 +139,14 @@ static int cmd_bool(const Args& a) {
   g_gpcert = argi(a, "gpcert", 0) != 0; g_xtra = argi(a, "xtra", 0) != 0; g_light = argi(a, "light", 0) != 0;
   for (long long v : argl(a, "cts", "")) g_cts.push_back((int)v); for (long long v : argl(a, "frs", "")) g_frs.push_back((int)v);
   gp_filter_t() = (int)argi(a, "gpt", 3); g_loose = gp_filter_t() == 0;
+  // needsplit: keep only inputs for which some tree execution splits a self-intersecting output ring (hook H4 split_fn): the Layer-2
+  // hook as a search director for the rare inputs whose contours pinch after rounding
+  const bool needsplit = argi(a, "needsplit", 0) != 0;
+  auto splits_in_tree = [&](const Paths64& S, const Paths64& C) { g_nsplit = 0; Clipper2Lib::verif::split_fn = split_cb;
+    for (int ct = 1; ct <= 4; ++ct) for (int fr = 0; fr <= 1; ++fr) { Clipper64 c; c.AddSubject(S); c.AddClip(C); PolyTree64 t; c.Execute((ClipType)ct, (FillRule)fr, t); }
+    Clipper2Lib::verif::split_fn = nullptr; return g_nsplit; };
   if (fam == "gps") { const int64_t off = argi(a, "off", 0);   // off: shift the lattice (negative coordinates: truncation towards zero behaves differently)
-    for (long long i = 0; i < n; ++i) if (gen_gps(r, R, (int)argi(a, "maxpaths", 2), (int)argi(a, "maxv", 6), S, C)) { if (off) for (auto* ps : {&S, &C}) for (auto& p : *ps) for (auto& q : p) { q.x += off; q.y += off; } emit(S, C); } }
+    for (long long i = 0; i < n; ++i) if (gen_gps(r, R, (int)argi(a, "maxpaths", 2), (int)argi(a, "maxv", 6), S, C)) { if (off) for (auto* ps : {&S, &C}) for (auto& p : *ps) for (auto& q : p) { q.x += off; q.y += off; } if (needsplit && splits_in_tree(S, C) == 0) continue; emit(S, C); } }
   else if (fam == "ladder") { for (int ws = -3; ws <= 3; ++ws) for (int wc = -3; wc <= 3; ++wc) for (int d = 0; d < 2; ++d) { gen_ladder(ws, wc, d, S, C); emit(S, C); } }
   else if (fam == "walk") {
     int g = (int)argi(a, "grid", 6);
